@@ -230,7 +230,16 @@ impl<
         &self,
         timestamp: Timestamp,
     ) -> Result<&shared::TzifLocalTimeType, &PosixTimeZone<ABBREV>> {
-        let timestamp = timestamp.as_second();
+        // Transitions are whole seconds, so we need the *floor* of the
+        // timestamp. `as_second` truncates toward zero, which for an instant
+        // before the epoch with a fractional part is one second too late.
+        // (This can't underflow: the minimum second has no negative
+        // fraction.)
+        let timestamp = if timestamp.subsec_nanosecond() < 0 {
+            timestamp.as_second() - 1
+        } else {
+            timestamp.as_second()
+        };
         // This is guaranteed because we always push at least one transition.
         // This isn't guaranteed by TZif since it might have 0 transitions,
         // but we always add a "dummy" first transition with our minimum
